@@ -226,11 +226,48 @@ type jop struct {
 func propC10(run *Run, n int) {
 	run.rule = "p = RenderPatch(a.Diff(b)) rendered hunk by hunk, and subset-preserving variations (changed values in matching test/remove pairs, indices shifted consistently across a hunk, dropped hunks, dropped context tests, '-' append) and respell-token (a reference token respelled outside the RFC 6901 grammar: index N as 0N, +N, -N, 00N, 00; '-' as -1; a key with an invalid ~ escape; a member renamed — in patch and documents — to a number-like name 007, 01, -1, +1, -0 so that it reaches an object) and malformed-op (the patch DOCUMENT damaged: an op without value / path / op, member names in another letter case, an extra Value / PATH / Op member with another content next to the exact one, an exact member written twice, a non-object element, the texts null, {}, [null], [[]], \"x\") x targets (a, b, perturbations); non-trivial = jd reads and applies the patch; distinct = distinct (patch text, target)"
 	r := NewRng(run.Seed)
+	// consecutive `-` appends to ONE array that is NOT the root (below keys / indices), two to four values: RFC 6902
+	// appends them in document order
+	for i := 0; i < n/60+8; i++ {
+		k := 2 + r.Intn(3)
+		vals := []*Val{}
+		for j := 0; j < k; j++ {
+			vals = append(vals, VNum(float64(10+j)))
+		}
+		arr := VArr(VNum(1))
+		if r.Chance(1, 3) {
+			arr = VArr()
+		}
+		var t *Val
+		var ptr string
+		switch r.Intn(4) {
+		case 0:
+			t, ptr = VObj("foo", arr), "/foo/-"
+		case 1:
+			t, ptr = VObj("a", VObj("b", arr), "z", VNum(0)), "/a/b/-"
+		case 2:
+			t, ptr = VArr(VNum(0), arr), "/1/-"
+		default:
+			t, ptr = VObj("k", VArr(VObj("l", arr))), "/k/0/l/-"
+		}
+		ops := []string{}
+		want := arr.Clone()
+		for _, v := range vals {
+			ops = append(ops, fmt.Sprintf(`{"op":"add","path":%q,"value":%s}`, ptr, cliJSON(v)))
+			want.A = append(want.A, v)
+		}
+		run.Count("variation:nested-consecutive-appends")
+		addC10Case(run, "nested-consecutive-appends", "["+strings.Join(ops, ",")+"]", t, t, t)
+	}
 	for i := 0; i < n; i++ {
 		cfg := DefaultCfg()
 		cfg.ScalarBias = 4
 		if r.Chance(1, 3) {
 			cfg.Keys = []string{"a", "b", "a/b", "m~n", "", "é", "x", "01", "007", "+1", "-1", "-0"}
+		}
+		if r.Chance(1, 6) {
+			// keys holding SEVERAL separators or tildes (an escape applied to the first occurrence only would show)
+			cfg.Keys = []string{"a/b/c", "~a~", "//", "~~", "/pets/{id}", "x~/~/y", "a", "b"}
 		}
 		a, b := cfg.Pair(r)
 		if a.K == KVoid || b.K == KVoid {
@@ -1305,6 +1342,19 @@ func res3Equals(a, b jd.JsonNode) bool { return a.Equals(b) && b.Equals(a) }
 func propC12(run *Run, n int) {
 	run.rule = "random targets x random merge patch documents (objects nested with nulls, empty objects at any depth over objects/scalars/absent keys, arrays, scalars, null at the root); non-trivial = the patch is not the empty object; distinct = distinct (target, patch)"
 	r := NewRng(run.Seed)
+	// patch TEXTS in spellings a JSON reader accepts and another reader (YAML) would not, or would read differently
+	for k, text := range []string{
+		`{"link":"http:\/\/example.com\/a"}`, `{"t":-0}`, "{\"s\":\"line1\u0085line2\"}", `{"id":9223372036854775808}`, "{\"d\":\"\x7f\"}",
+		`{"` + strings.Repeat("k", 1100) + `":1}`, `{"a":1.0E+2,"b":[1e0,2E0]}`, "{\t\"a\"\t:\t[\t1\t,\t2\t]\t}", `{"y":"yes","n":"~","o":"0o17","x":"0x1F","t":"2001-01-01"}`,
+		`{"a":"\u0041\u00e9\ud83d\ude00"}`, `{"a": "b: c", "d": "- e", "f": "#g"}`,
+	} {
+		t := VObj("a", VNum(1), "link", VStr("x"))
+		if k%2 == 1 {
+			t = VArr(VNum(1))
+		}
+		run.Count("patch_text:json-only-spelling")
+		addC12CaseText(run, t, text, "", Recipe{"c12text", []string{t.Wire(), textWire(text)}})
+	}
 	for i := 0; i < n; i++ {
 		cfg := DefaultCfg()
 		cfg.ScalarBias = 4
@@ -1363,6 +1413,9 @@ func propC12(run *Run, n int) {
 			continue
 		}
 		addC12Case(run, t, p)
+		if r.Chance(1, 6) {
+			addC12CaseSpelled(run, t, p, r)
+		}
 		if r.Chance(1, 40) {
 			addC12ChainCase(run, r, cfg)
 		}
@@ -1417,11 +1470,77 @@ func sortHunks(out string) string {
 	return "ok " + joinHunks(hs)
 }
 
-func addC12Case(run *Run, t, p *Val) {
-	tw := t.Wire()
+// jsonRespell writes the same JSON value with other spellings that RFC 8259 allows (and a YAML reader would not all
+// accept or would read differently): "\/" for "/", \u00XX for ASCII letters, white space between tokens, integers as N.0 /
+// NeK forms. The value denoted does not change.
+func jsonRespell(r *Rng, text string) string {
+	var b strings.Builder
+	inStr := false
+	for i := 0; i < len(text); i++ {
+		ch := text[i]
+		if inStr {
+			switch {
+			case ch == '\\' && i+1 < len(text):
+				b.WriteByte(ch)
+				i++
+				b.WriteByte(text[i])
+			case ch == '"':
+				inStr = false
+				b.WriteByte(ch)
+			case ch == '/' && r.Chance(1, 2):
+				b.WriteString("\\/")
+			case ((ch >= 'a' && ch <= 'z') || (ch >= 'A' && ch <= 'Z')) && r.Chance(1, 8):
+				fmt.Fprintf(&b, "\\u%04x", ch)
+			default:
+				b.WriteByte(ch)
+			}
+			continue
+		}
+		switch {
+		case ch == '"':
+			inStr = true
+			b.WriteByte(ch)
+		case ch == ',' || ch == ':' || ch == '[' || ch == '{':
+			b.WriteByte(ch)
+			if r.Chance(1, 4) {
+				b.WriteString([]string{" ", "\n", "\t", "\r\n  "}[r.Intn(4)])
+			}
+		case ch >= '0' && ch <= '9':
+			j := i
+			for j < len(text) && ((text[j] >= '0' && text[j] <= '9') || text[j] == '.' || text[j] == 'e' || text[j] == 'E' || text[j] == '+' || text[j] == '-') {
+				j++
+			}
+			tok := text[i:j]
+			if !strings.ContainsAny(tok, ".eE") && len(tok) < 15 && r.Chance(1, 3) {
+				tok += []string{".0", "e0", "E+0", ".00"}[r.Intn(4)]
+			}
+			b.WriteString(tok)
+			i = j - 1
+		default:
+			b.WriteByte(ch)
+		}
+	}
+	return b.String()
+}
+
+func addC12Case(run *Run, t, p *Val) { addC12CaseSpelled(run, t, p, nil) }
+
+// with a generator: the patch text is respelled (same JSON value, other spelling)
+func addC12CaseSpelled(run *Run, t, p *Val, r *Rng) {
 	ptext := ""
 	safely(func() string { ptext = mustNode(p.Wire()).Json(); return "" })
-	c := Case{Recipe: Recipe{"c12", []string{tw, p.Wire()}}, Desc: map[string]string{"target": t.Human(), "patch": ptext}}
+	if r == nil {
+		addC12CaseText(run, t, ptext, p.Wire(), Recipe{"c12", []string{t.Wire(), p.Wire()}})
+		return
+	}
+	ptext = jsonRespell(r, ptext)
+	run.Count("patch_text:respelled")
+	addC12CaseText(run, t, ptext, p.Wire(), Recipe{"c12text", []string{t.Wire(), textWire(ptext)}})
+}
+
+func addC12CaseText(run *Run, t *Val, ptext, pwire string, rec Recipe) {
+	tw := t.Wire()
+	c := Case{Recipe: rec, Desc: map[string]string{"target": t.Human(), "patch": ptext}}
 	rd := implReadMerge(ptext)
 	po := "err"
 	if strings.HasPrefix(rd, "ok ") {
@@ -1431,7 +1550,7 @@ func addC12Case(run *Run, t, p *Val) {
 	c.Desc["impl_patch"] = po
 	c.Nontrivial = ptext != "{}"
 	c.Sig = tw + "|" + ptext
-	nd := numDict([]string{tw, p.Wire(), po}, []string{ptext})
+	nd := numDict([]string{tw, pwire, po}, []string{ptext})
 	c.Probes = append(c.Probes,
 		Probe{Kind: "corr", Rel: "ReadMergeString = readMergeM (as a set of hunks; their order is C15's)", Line: fmt.Sprintf("readmergesorted %s %s", nd, textWire(ptext)), Want: sortHunks(rd)},
 		Probe{Kind: "oracle", Rel: "C12 read + apply = MergePatch(target, patch) of RFC 7386", Line: fmt.Sprintf("c12 %s %s %s %s", nd, tw, textWire(ptext), po)},
@@ -1439,7 +1558,16 @@ func addC12Case(run *Run, t, p *Val) {
 	if strings.HasPrefix(rd, "ok ") {
 		c.Probes = append(c.Probes, Probe{Kind: "corr", Rel: "Patch = patchM (merge hunks)", Line: fmt.Sprintf("patch %s %s", tw, rd[3:]), Want: po})
 	}
-	run.Count("patch_kind:" + map[Kind]string{KNull: "null", KObj: "object", KArr: "array", KNum: "scalar", KStr: "scalar", KBool: "scalar"}[p.K])
+	kind := "scalar"
+	switch strings.TrimSpace(ptext + " ")[0] {
+	case '{':
+		kind = "object"
+	case '[':
+		kind = "array"
+	case 'n':
+		kind = "null"
+	}
+	run.Count("patch_kind:" + kind)
 	run.Count("apply:" + strings.Fields(po)[0])
 	run.Add(c)
 }
@@ -1466,5 +1594,9 @@ func init() {
 	recipes["c10"] = func(run *Run, a []string) { addC10Case(run, a[0], a[1], mustVal(a[2]), mustVal(a[3]), mustVal(a[4])) }
 	recipes["c11"] = func(run *Run, a []string) { addC11Case(run, mustOpts(a[0]), mustVal(a[1]), mustVal(a[2])) }
 	recipes["c12"] = func(run *Run, a []string) { addC12Case(run, mustVal(a[0]), mustVal(a[1])) }
+	recipes["c12text"] = func(run *Run, a []string) {
+		t, _ := outcomeText("ok " + a[1])
+		addC12CaseText(run, mustVal(a[0]), t, "", Recipe{"c12text", a})
+	}
 	recipes["c12chain"] = func(run *Run, a []string) { addC12ChainCase(run, NewRng(run.Seed), DefaultCfg()) }
 }
